@@ -297,6 +297,21 @@ Definition exp_stream_reader_bases :=
 Lemma stream_reader_bases_tie : Gen_Codec.stream_reader_bases = exp_stream_reader_bases.
 Proof. reflexivity. Qed.
 
+(* which methods the two reader classes define, and their class-level assignments: the interpreters of base/Prog.v
+   (run_plain for BufferReader, run_stream for BytesIOReader) transcribe exactly these; an added override or class
+   attribute means the stream reader may no longer run the transcribed code *)
+Definition exp_reader_methods : list string :=
+  [ "__init__"; "expect_to_read"; "bytes_left"; "bytes_remaining"; "unpack_f"; "unpack_numpy"; "unpack_torch";
+    "unpack_tensorflow"; "unpack"; "advance"; "skip"; "unpack_str" ].
+Lemma reader_methods_tie : Gen_Codec.reader_methods = exp_reader_methods.
+Proof. reflexivity. Qed.
+Definition exp_stream_reader_methods : list string :=
+  [ "__init__"; "skip"; "read_chunk"; "expect_to_read"; "bytes_remaining" ].
+Lemma stream_reader_methods_tie : Gen_Codec.stream_reader_methods = exp_stream_reader_methods.
+Proof. reflexivity. Qed.
+Lemma reader_class_attrs_tie : Gen_Codec.reader_class_attrs = [] /\ Gen_Codec.stream_reader_class_attrs = [].
+Proof. split; reflexivity. Qed.
+
 Definition exp_cache_calc_hash :=
   [ "return hashlib.md5(buffer[PoseHeaderCache.start_offset:PoseHeaderCache.end_offset]).hexdigest()" ].
 Lemma cache_calc_hash_tie : Gen_Codec.cache_calc_hash = exp_cache_calc_hash.
